@@ -423,14 +423,11 @@ func (s *Server) getConn(l *coapNet.UDPConn, raddr *net.UDPAddr, laddr *net.UDPA
 		if s.cfg.OnNewConn != nil {
 			s.cfg.OnNewConn(cc)
 		}
-	} else {
-		// check if client is not expired now + 10ms  - if so, close it
-		// 10ms - The expected maximum time taken by cc.CheckExpirations and cc.InactivityMonitor().Notify()
-		cc.CheckExpirations(time.Now().Add(10 * time.Millisecond))
-		if cc.Context().Err() == nil {
-			// if client is not closed, extend expiration time
-			cc.InactivityMonitor().Notify()
-		}
+	} else if cc.Context().Err() == nil {
+		// a received datagram is activity of the peer: extend the expiration time. Whether the connection has
+		// expired is decided by the periodic housekeeping only; evaluating the monitor here as well would count
+		// the datagram that proves the peer alive (e.g. the pong of a keep-alive ping) as one more inactivity.
+		cc.InactivityMonitor().Notify()
 	}
 
 	if cc.Context().Err() != nil {
